@@ -15,7 +15,7 @@ from ..cfg import cfg_of
 from ..model import own_nodes
 from ..values import pattern, match, match_any, find, contains, show, subterms, alias
 from ..domains import polarity, POS, NEG, ZERO
-from .base import obligation, src, callee_name
+from .base import obligation, src, callee_name, unweak
 from .C04 import pattern_term, returns, enclosing_loop, _inside
 
 BP = 'elfi.methods.posteriors:BolfiPosterior'
@@ -294,7 +294,9 @@ def c10_d(ctx):
     pr = ctx.own_method(gp, 'predict')
     resets = [s for (s, t, k) in ctx.stores(pr, 'self._rbf_is_cached')
               if isinstance(s, ast.Assign) and ctx.term(pr, s.value) == ('const', False)]
-    ok_lazy = bool(resets) and all(any(pol is False and contains(t, 'self.is_sampling')
+    # the reset sits on the branch where the fast-path test as a whole is false
+    ok_lazy = bool(resets) and all(any(pol is False and contains(unweak(t), 'self.is_sampling')
+                                       and contains(unweak(t), 'self._kernel_is_default')
                                        for (t, pol, _) in ctx.guards(pr, s)) for s in resets)
     # alternative discipline: every method that changes the GP (new instance, optimised
     # hyper-parameters) invalidates the cache itself
